@@ -840,8 +840,25 @@ func GenCase(prop string, seed uint64, thorough bool) *Case {
 			// and a commit has succeeded, the manifest and the DB agree again
 			// and the settle check applies
 			for i := r.rng(1, 2); i > 0; i-- {
-				c.Faults = append(c.Faults, &simdisk.Fault{Kind: "err", Op: []string{simdisk.OpWrite, simdisk.OpSync}[r.intn(2)], FT: int(storage.TypeManifest), Nth: r.rng(2, 30), Count: r.rng(1, 2), Epoch: -1})
+				c.Faults = append(c.Faults, &simdisk.Fault{Kind: "err", Op: []string{simdisk.OpWrite, simdisk.OpSync}[r.intn(2)], FT: int(storage.TypeManifest), Nth: r.rng(2, 30), Count: r.pick(1, 2, 3, 5), Epoch: -1})
 			}
+			if r.p(0.5) {
+				// a commit that fails all three attempts while a level-0
+				// compaction is in flight (its commit then starts the next
+				// manifest before the transaction is discarded)
+				c.Faults[len(c.Faults)-1].Op, c.Faults[len(c.Faults)-1].Nth, c.Faults[len(c.Faults)-1].Count = simdisk.OpSync, r.rng(2, 9), 3
+				c.Knobs.L0Trigger = r.pick(1, 1, 2)
+			}
+			// transactions whose commit may fail for good, discarded only
+			// after a while (background commits may go through meanwhile)
+			ops0 := c.Clients[0]
+			for i := r.rng(1, 3); i > 0; i-- {
+				at := r.intn(len(ops0) + 1)
+				tx := g.txOp()
+				tx.Commit, tx.Ms = true, r.pick(1500, 6000, 31000)
+				ops0 = append(ops0[:at:at], append([]Op{tx}, ops0[at:]...)...)
+			}
+			c.Clients[0] = ops0
 		}
 		c.TableFaultsOnly = true
 		ops := append(c.Clients[0], Op{K: "heal"})
